@@ -160,6 +160,7 @@ PROPS['C11'] = dict(level='model_checking',
   outside='task<> affinity (coroutines not built); contexts backed by real threads; async_mutex/async_pass senders',
   harnesses=[SEQ('ctx_' + n, 'C11_ctx.cpp', 'h_' + n, desc=n) for n in ['via', 'typed_via', 'on', 'event_affine', 'traits_affine', 'traits_just', 'traits_then', 'traits_let', 'traits_seq', 'traits_finally', 'traits_sched', 'traits_done']])
 
+PROPS['C09']['harnesses'] += [SEQ('future_drop_m%d_r%d' % (m, r), 'C09_future_drop.cpp', 'h_future_drop', exc=True, opts=dict(params=[m, r], max_visits=200), desc='future<tracked> dropped; leaf %s; result %s the drop' % (['completes later', 'completes with a value inside its stop callback'][m], ['not yet stored before', 'already stored before'][r])) for m in (0, 1) for r in (0, 1)]
 PROPS['C10'] = dict(level='model_checking',
   bounds='sequential, C++20: a two-level task nesting awaiting an inline leaf with symbolic outcome (value/error/done) and payload',
   outside='stop requests from other threads at suspension points; scheduler hops; at_coroutine_exit ordering (thorough harness list); gcc coroutine lowering',
